@@ -84,6 +84,33 @@ def check_complete(r, k):
     r.nontriv += 1
 
 
+def check_complete_big(r, k):
+    """Whole-array check of the complete accessor at a high order (the arithmetic formula it is
+    compared with is the one validated against string slicing on every vertex of orders 1..8)."""
+    import dsw
+    st, acc, _ = brun(dsw.get_complete_accessor, observed_length=k, lim=10 ** 9)
+    r.trans += 1
+    r.evals += 1
+    r.states += 1
+    r.nontriv += 1
+    n = 4 ** k
+    if st != 'ok' or getattr(acc, 'shape', None) != (n, 4):
+        r.v('C13|get_complete_accessor|shape', 'complete_big', {'k': k}, [n, 4], getattr(acc, 'shape', repr(acc)[:80]))
+        return
+    exp = (np.arange(n, dtype=np.int64)[:, None] * 4 + np.arange(4, dtype=np.int64)[None, :]) % n
+    bad = np.argwhere(np.asarray(acc) != exp)
+    if len(bad):
+        v = int(bad[0][0])
+        r.v('C13|get_complete_accessor|row', 'complete_big', {'k': k}, O.succ_s(v, k), [int(x) for x in acc[v]], 'row %d (%d rows differ)' % (v, len(set(bad[:, 0].tolist()))))
+    r.maxi('complete_accessor_whole_array_order', k)
+
+
+def _w_complete_big(k):
+    r = core.Res()
+    check_complete_big(r, k)
+    return r
+
+
 def wf_check(r, acc, k, what, case):
     """The graph well-formedness invariant, used on everything the library builds or converts."""
     r.evals += 1
@@ -126,10 +153,11 @@ def check_built(r, k, mask):
         if k <= 3:
             st2, mat, _ = brun(dsw.accessor_to_adjacency_matrix, acc)
             if st2 == 'ok':
-                st3, a4, _ = brun(dsw.adjacency_matrix_to_accessor, mat)
-                r.trans += 2
-                if st3 == 'ok':
-                    wf_check(r, a4, k, 'adjacency_matrix_to_accessor', case)
+                for dt in (None, np.int8, bool):
+                    st3, a4, _ = brun(dsw.adjacency_matrix_to_accessor, mat if dt is None else np.asarray(mat).astype(dt))
+                    r.trans += 1
+                    if st3 == 'ok':
+                        wf_check(r, a4, k, 'adjacency_matrix_to_accessor%s' % ('' if dt is None else '-' + np.dtype(dt).name), case)
     for t in (1, 2, 3):
         st, res, _ = brun(dsw.connect_coding_graph, observed_length=k, vertices=m.copy(), threshold=t,
                           lim=2000000)
@@ -175,6 +203,8 @@ def check_case(r, kind, case):
         check_vertex(r, case['k'], case['v'])
     elif kind == 'complete':
         check_complete(r, case['k'])
+    elif kind == 'complete_big':
+        check_complete_big(r, case['k'])
     elif kind == 'built':
         check_built(r, case['k'], set(case['mask']))
 
@@ -249,6 +279,7 @@ def run(ctx):
         fam += [(k, c) for c in core.chunks_of(b, 500)]
     ctx.pmap(_w_list, fam)
     ctx.pmap(_w_complete, list(range(1, (7 if ctx.quick else 8) + 1)))
+    ctx.pmap(_w_complete_big, [9, 10] if ctx.quick else [9, 10, 11])
     bf = built_family(ctx.quick)
     ctx.pmap(_w_built, core.chunks_of(bf, 40))
     ctx.bounds = {'all_vertices_k': [1, kmax], 'boundary_family_k': [10, 11, 12],
